@@ -1,8 +1,8 @@
 package lint
 
 import (
-	"os"
 	"fmt"
+	"os"
 	"strings"
 
 	"golang.org/x/tools/go/ssa"
@@ -39,7 +39,7 @@ type EdgeInfo struct {
 	// conditions and rendered as facts (group → member → facts); see impliedAnyOf
 	AnyOf      [][]CondTruth
 	AnyOfFacts [][][]string
-	Facts   []string
+	Facts      []string
 }
 
 // InstrPred selects instructions.
